@@ -197,3 +197,75 @@ Proof.
   eapply Forall_impl; [|exact Hr]. cbv beta. intros x [A B]. split; [exact A|].
   rewrite (pstep_heap_len st s c). exact B.
 Qed.
+
+(** ** acceptance of the in-place model by the acceptor the check runs *)
+Lemma publish_h_call_ok_any st script topic idx h : NoDup idx -> hvalid_all h idx ->
+  call_ok_any st (PObs topic (hreads h idx) (ho_ev (publish_h st script topic idx h)) (hd None script)
+                       (ho_res (publish_h st script topic idx h))
+                       (hreads (ho_heap (publish_h st script topic idx h)) idx)) = true.
+Proof.
+  intros ND V. unfold call_ok_any. cbn [c_before].
+  destruct (has_dup (hreads h idx)); [apply publish_h_call_ok_dup|].
+  destruct (publish_h_refines st script topic idx h ND V) as (A1 & A2 & A3 & A4 & A5).
+  rewrite A2, A4, A5.
+  rewrite (hreads_write idx ND h _ V) by (rewrite publish_length; apply hreads_length; exact V).
+  apply publish_call_ok.
+Qed.
+
+Definition good_calls (n : nat) (calls : list pcall) : Prop :=
+  Forall (fun c => NoDup (pc_batch c) /\ Forall (fun i => i < n) (pc_batch c)) calls.
+
+Lemma pstep_h_heap_len st s c : NoDup (pc_batch c) -> hvalid_all (ps_heap s) (pc_batch c) ->
+  length (ps_heap (pstep_h st s c)) = length (ps_heap s).
+Proof. intros ND V. rewrite (pstep_h_refines st s c ND V). apply pstep_heap_len. Qed.
+
+Lemma prun_h_calls_ok st calls : forall s, good_calls (length (ps_heap s)) calls ->
+  forallb (call_ok_any st) (pobs_run_h st s calls) = true.
+Proof.
+  induction calls as [|c cs IH]; intros s H; [reflexivity|]. inversion H as [|? ? [ND V] Hr]; subst.
+  cbn [pobs_run_h forallb]. rewrite (publish_h_call_ok_any st _ _ _ _ ND V). simpl.
+  apply IH. unfold good_calls. rewrite (pstep_h_heap_len st s c ND V). exact Hr.
+Qed.
+
+Lemma pobs_run_h_refines st calls : forall s, good_calls (length (ps_heap s)) calls ->
+  pobs_run_h st s calls = pobs_run st s calls.
+Proof.
+  induction calls as [|c cs IH]; intros s H; [reflexivity|]. inversion H as [|? ? [ND V] Hr]; subst.
+  cbn [pobs_run_h pobs_run].
+  destruct (read_valid (ps_heap s) (pc_batch c) V) as [R1 _].
+  destruct (publish_h_refines st (ps_script s) (pc_topic c) (pc_batch c) (ps_heap s) ND V) as (A1 & A2 & A3 & A4 & A5).
+  rewrite R1, A2, A4, A5.
+  rewrite (hreads_write _ ND _ _ V) by (rewrite publish_length; apply hreads_length; exact V).
+  f_equal. rewrite (pstep_h_refines st s c ND V). apply IH.
+  unfold good_calls. rewrite pstep_heap_len. exact Hr.
+Qed.
+
+(** every run of the in-place model whose batches repeat nothing is accepted by [pub_monitor_any] *)
+Lemma pub_monitor_any_model st heap script calls tab :
+  good_calls (length heap) calls ->
+  counts_agree plabel_eqb tab (ps_obs (prun_h st heap script calls)) = true ->
+  pub_monitor_any st (pobs_run_h st (PS heap script [] [] []) calls) tab = true.
+Proof.
+  intros G H. unfold pub_monitor_any.
+  rewrite (prun_h_calls_ok st calls (PS heap script [] [] []) G). simpl.
+  rewrite (pobs_run_h_refines st calls (PS heap script [] [] []) G).
+  unfold prun_h in H. rewrite (prun_h_refines st calls (PS heap script [] [] [])) in H by exact G.
+  rewrite prun_obs in H. exact H.
+Qed.
+
+(** ** a wrapped publisher that panics *)
+Lemma pub_label_is_fixed n m r : pub_label n m r = pub_label_v true n m r.
+Proof. unfold pub_label, pub_label_v, pub_success. destruct r; [rewrite andb_false_r|]; reflexivity. Qed.
+
+(** the panic comes back out of every stack that lets the batch through ... *)
+Lemma publish_panic_escapes st script topic msgs :
+  stack_reject st msgs = None -> hd None script = Some e_panic ->
+  po_res (publish st script topic msgs) = Some e_panic.
+Proof.
+  intros H1 H2. pose proof (publish_spec st script topic msgs) as S. rewrite H1 in S.
+  destruct S as (_ & S & _). congruence.
+Qed.
+
+(** ... and is a failure for the (repaired) metrics decorator, a success for the pinned one *)
+Lemma pub_panic_labels : pub_success true (Some e_panic) = false /\ pub_success false (Some e_panic) = true.
+Proof. split; reflexivity. Qed.
